@@ -655,9 +655,8 @@ def _run_corpus(ctx, res, tables, files, quick_files):
     if ctx.quick and os.path.exists(os.path.join(TESTS, "1ATO.pdb")):
         jobs.append((os.path.join(TESTS, "1ATO.pdb"), tables, "edited"))
     if len(jobs) >= 4:
-        import multiprocessing as mp
-        with mp.get_context("fork").Pool(min(16, len(jobs))) as pool:
-            outs = pool.map(corpus_file, jobs, chunksize=1)
+        from core import fork_map
+        outs = fork_map(corpus_file, jobs, nproc=min(16, len(jobs)), chunksize=1)
     else:
         outs = [corpus_file(j) for j in jobs]
     for o in outs:
@@ -809,9 +808,8 @@ def run(ctx):
         n = min(per, total - k)
         jobs.append((ctx.rng.getrandbits(48), n, k == 0, ctx.pick(1, 8)))
         k += n
-    import multiprocessing as mp
-    with mp.get_context("fork").Pool(min(16, os.cpu_count() or 1, len(jobs))) as pool:
-        outs = pool.map(chunk_worker, jobs, chunksize=1)
+    from core import fork_map
+    outs = fork_map(chunk_worker, jobs, nproc=min(16, os.cpu_count() or 1, len(jobs)), chunksize=1)
     nfail = {}
     for o in outs:
         res.evaluations += o["evals"]
